@@ -472,7 +472,7 @@ fn run_script(sc: &Script, ctx: &mut Ctx) -> Result<(), Fail> {
     result
 }
 
-fn case_script(bytes: &[u8], _s: &[u8], ctx: &mut Ctx) -> Result<(), Fail> {
+pub fn case_script(bytes: &[u8], _s: &[u8], ctx: &mut Ctx) -> Result<(), Fail> {
     let mut src = Source::new(bytes);
     let sc = decode(&mut src);
     ctx.case(&sc);
